@@ -4,8 +4,11 @@ import fnmatch, hashlib, json, os, re, subprocess, sys, time
 from . import build, runner
 
 VERIF = build.VERIF
-EVIDENCE_DIR = os.path.join(VERIF, "evidence")
-REPLAY_DIR = os.path.join(VERIF, "replays")
+# VERIF_OUT_ROOT redirects evidence, replay files and scratch output (used by the seeded-break runner so that runs against a
+# scratch worktree neither touch the committed evidence of the unchanged tree nor collide with each other)
+OUT_ROOT = os.environ.get("VERIF_OUT_ROOT") or VERIF
+EVIDENCE_DIR = os.path.join(OUT_ROOT, "evidence")
+REPLAY_DIR = os.path.join(OUT_ROOT, "replays")
 KNOWN_PATH = os.path.join(VERIF, "known_findings.json")
 
 
